@@ -47,6 +47,14 @@ def setup_env():
     sys.path.insert(0, deps)
     sys.path.insert(0, VERIF)
     sys.path.insert(0, REPO)
+    if os.environ.get("VF_REACH"):
+        import atexit
+
+        from vf import reach
+
+        os.environ["VF_REACH_REPO"] = REPO  # CLI runs inherit it (vf/audit_site/sitecustomize.py)
+        reach.start(REPO)
+        atexit.register(reach.dump)
     import ford  # noqa: F401
 
     got = os.path.realpath(os.path.dirname(ford.__file__))
@@ -277,6 +285,16 @@ class _Timeout(Exception):
     pass
 
 
+def _reach_dump():
+    if os.environ.get("VF_REACH"):
+        try:
+            from vf import reach
+
+            reach.dump()
+        except BaseException:  # noqa: BLE001
+            pass
+
+
 def _run_in_child(func, item, timeout):
     """Run func(item) in a forked child; result pickled over a pipe.  Returns
     ('ok', result) | ('error', text) | ('timeout', None) | ('died', status)."""
@@ -298,6 +316,7 @@ def _run_in_child(func, item, timeout):
         except BaseException:
             code = 3
         finally:
+            _reach_dump()
             os._exit(code)
     os.close(w)
     chunks = []
@@ -365,6 +384,7 @@ def fork_map(func, items, workers=None, case_timeout=120, per_case_fork=True, to
                     traceback.print_exc()
                     code = 3
                 finally:
+                    _reach_dump()
                     os._exit(code)
             pids.append(pid)
         deadline = time.time() + (total_timeout or (case_timeout * (n // workers + 2) + 60))
